@@ -20,7 +20,7 @@ TRUSTED = ["g++ 12 and the API model (signals as member functions dispatching to
            "model/Sem.v as the reading of the handler language; the general theorem is NOT proved: decided per generated handler, argument values and world"]
 HDR = "From Coq Require Import DecimalString.\n" + exe.HEADER
 SIGNALS = {(): ("onFired", "fired", []), ("int",): ("onRoChanged", "roChanged", ["int"]), ("int", "bool"): ("onPicked", "picked", ["int", "bool"]),
-           ("int", "string"): ("onFired2", "fired2", ["int", "string"]), ("double",): ("onDChanged", "dChanged", ["double"])}
+           ("int", "string"): ("onFired2", "fired2", ["int", "string"]), ("double",): ("onDPicked", "dPicked", ["double"])}     # not dChanged: a handler of a notify signal that writes the property re-enters itself
 
 
 def coq_arg(t, v):
